@@ -525,6 +525,16 @@ impl Writer {
 
                 #[cfg(feature = "verif")]
                 crate::verif::point("merge:after_copy");
+                // write the KeyDir entry to the hint file for fast recovery. This comes before the
+                // KeyDir is changed: recovery reads a merge file through its hint file only, so an
+                // entry whose hint could not be written must keep pointing at the file it came from
+                merge_hintfile_writer.append(&HintFileEntry {
+                    tstamp: keydir_entry.tstamp,
+                    len: nbytes,
+                    pos: merge_pos,
+                    key: keydir_entry.key().clone(),
+                })?;
+
                 // update keydir so it points to the merge data file
                 keydir_entry.fileid = merge_fileid;
                 keydir_entry.len = nbytes;
@@ -533,14 +543,6 @@ impl Writer {
                 // the merge file must only contain live keys
                 let mut stats = self.ctx.stats.entry(merge_fileid).or_default();
                 stats.add_live();
-
-                // write the KeyDir entry to the hint file for fast recovery
-                merge_hintfile_writer.append(&HintFileEntry {
-                    tstamp: keydir_entry.tstamp,
-                    len: keydir_entry.len,
-                    pos: keydir_entry.pos,
-                    key: keydir_entry.key().clone(),
-                })?;
 
                 // switch to new merge data file if we exceed the max file size
                 merge_pos += nbytes;
